@@ -16,11 +16,29 @@ func Generate(property string, seed uint64, run int, tier string) *Plan {
 	if !ok {
 		return nil
 	}
+	thorough = tier == "thorough"
 	g(r, p, tier)
 	if p.Tape == nil {
 		p.Tape = r.Tape(600)
 	}
+	if thorough {
+		// deeper bounds: longer tapes (more scheduling freedom) and step budgets
+		p.Tape = append(p.Tape, r.Tape(len(p.Tape))...)
+		p.MaxSteps *= 2
+	}
 	return p
+}
+
+// thorough is set while a thorough-tier plan is being generated: generators widen their
+// bounds (more connections, sessions, packets) through up().
+var thorough bool
+
+// up widens a bound in the thorough tier.
+func up(n int) int {
+	if thorough {
+		return n + n/2 + 1
+	}
+	return n
 }
 
 var generators = map[string]func(r *Rand, p *Plan, tier string){}
@@ -264,7 +282,7 @@ func genC05(r *Rand, p *Plan, tier string) {
 	p.Family = "framing"
 	p.Scen.Server = "probe"
 	sub := r.Intn(10)
-	nPk := 1 + r.Intn(12)
+	nPk := 1 + r.Intn(up(12))
 	key := r.key()
 	cs := ClientSpec{Addr: clientAddr(0), Key: key, SrvKey: key}
 	budget := 70000
@@ -400,6 +418,20 @@ func genC06(r *Rand, p *Plan, tier string) {
 				}
 			}
 			st.Reply = &rep
+			if r.Chance(8) && s.seq < 255 && !(rep.Kind == model.KAuthenReply && nth(rep.N, 0) == 6) {
+				// a first reply the encoder must refuse, then the real one
+				bad := GenBodyWide(r, replyKind(s.typ))
+				for tries := 0; bad.Sendable() && tries < 8; tries++ {
+					bad = GenBodyWide(r, replyKind(s.typ))
+				}
+				if !bad.Sendable() {
+					st.Reply = &bad
+					st.Extra = []BodySpec{rep}
+				}
+			} else if r.Chance(12) && !(rep.Kind == model.KAuthenReply && nth(rep.N, 0) == 6) && s.seq < 255 {
+				st.ViaWrite = true
+				st.WrongLen = PickOf(r, uint32(0), 1, 5, 65536, uint32(r.Intn(300)))
+			}
 			if !deep && r.Chance(25) {
 				st.Next = 0
 				s.done = true
@@ -435,7 +467,7 @@ func genC08(r *Rand, p *Plan, tier string) {
 		}
 		typ[i] = uint8(1 + r.Intn(3))
 	}
-	nPk := 2 + r.Intn(12)
+	nPk := 2 + r.Intn(up(12))
 	wrap := r.Chance(20) // drive a session to the top of the sequence space
 	for k := 0; k < nPk; k++ {
 		s := r.Intn(nSess)
@@ -513,6 +545,12 @@ func probeClient(r *Rand, idx int, nPk int, state string) ClientSpec {
 		seq := seqOf[sid] + 2
 		if seqOf[sid] == 0 {
 			seq = 1
+			if r.Chance(30) {
+				seq = 1 + 2*r.Intn(127) // sessions may start anywhere in the sequence space
+			}
+		}
+		if seq > 255 {
+			seq = 255
 		}
 		seqOf[sid] = seq
 		pk := &PktSpec{Ver: r.version(), Type: typ, Seq: uint8(seq), Flags: r.flags(false), Session: sid, Body: GenBody(r, PickOf(r, requestKinds(typ)...), false)}
@@ -559,9 +597,9 @@ func genC17(r *Rand, p *Plan, tier string) {
 	if r.Chance(35) {
 		p.Mode = "batch"
 	}
-	n := r.Intn(7)
+	n := r.Intn(up(7))
 	for i := 0; i < n; i++ {
-		cs := probeClient(r, i, r.Intn(4), PickOf(r, "idle", "idle", "mid-header", "mid-body", "close", "reset"))
+		cs := probeClient(r, i, r.Intn(up(4)), PickOf(r, "idle", "idle", "mid-header", "mid-body", "close", "reset"))
 		cs.NotBefore = r.Intn(25)
 		if r.Chance(15) {
 			cs.WFault = append(cs.WFault, WFaultAt(1+r.Intn(3), "park"))
@@ -599,7 +637,7 @@ func WFaultAt(at int, kind string) world.WriteFault { return world.WriteFault{At
 func genC20(r *Rand, p *Plan, tier string) {
 	p.Family = "gauges"
 	p.Scen.Server = "probe"
-	n := 1 + r.Intn(5)
+	n := 1 + r.Intn(up(5))
 	for i := 0; i < n; i++ {
 		var cs ClientSpec
 		switch r.Intn(8) {
